@@ -95,7 +95,7 @@ def run(ck, prog, tier, load):
         if arg[0] == "const" or (e_consts(arg) and not [r for r in e_roots(arg) if r[0] in ("arg", "var", "phi", "call")]):
             kind = "literal %r" % (e_consts(arg)[0][3] if e_consts(arg) else None)
             ok = True
-        elif e_calls(arg, r"regex_syntax::escape$|regex::escape$|regex_lite::escape$"):
+        elif e_calls(arg, r"regex_syntax::escape$|regex::escape$|regex_lite::(hir::)?escape$"):
             kind, ok = "escape(..)", True
         elif is_regex_part(arg):
             kind, ok = "parse_param(..) regex part", True
